@@ -85,7 +85,7 @@ func mkTx(i int) *types.Transaction {
 func main() {
 	r := ev.Start("C03", "exploration")
 	N := r.QT(130, 1100)
-	NB := r.QT(40, 160) // block-level paths (build + decode real blocks)
+	NB := r.QT(130, 400) // block-level paths (build + decode real blocks)
 	r.Require("root_ok", "block_accept", "block_reject_wrong_root")
 	for n := 0; n <= N; n++ {
 		for _, fam := range []string{"distinct", "allequal", "lasttwoequal"} {
